@@ -99,6 +99,9 @@ func (apifuzz) Generate(rng *Rand, prop, tier string) *Script {
 	if rng.Bool(50) {
 		s.Cfg["jitter"] = int64([]int{20, 100, 400}[rng.Intn(3)]) // microseconds of simulated time before lock requests
 	}
+	if rng.Bool(25) {
+		s.Cfg["seljit"] = int64(rng.Range(1, 5))
+	}
 	if rng.Bool(55) {
 		s.Cfg["mode"] = 0 // replica
 		s.Cfg["blocks"] = int64(rng.Range(4, 10))
@@ -338,6 +341,7 @@ func (fr *fzRun) runReplica() {
 	w := simrt.NewWorld(s.Seed, synctest.Wait)
 	w.StrictLocks = os.Getenv("VERIF_LOOSE_LOCKS") == ""
 	w.LockJitter = time.Duration(s.Cfg["jitter"]) * time.Microsecond
+	w.SelectJitter = int(s.Cfg["seljit"])
 	w.TraceOn = os.Getenv("VERIF_TRACE") != ""
 	defer w.Close()
 	fr.w = w
@@ -467,6 +471,7 @@ func (fr *fzRun) runController() {
 	w := simrt.NewWorld(s.Seed, synctest.Wait)
 	w.StrictLocks = os.Getenv("VERIF_LOOSE_LOCKS") == ""
 	w.LockJitter = time.Duration(s.Cfg["jitter"]) * time.Microsecond
+	w.SelectJitter = int(s.Cfg["seljit"])
 	w.TraceOn = os.Getenv("VERIF_TRACE") != ""
 	defer w.Close()
 	fr.w = w
